@@ -36,8 +36,13 @@ class RandSDE(nn.Module):
             self.gb = r(d * self.m)
         self.Hh = r(d, d)
 
+    stiff_until = None  # when set: the drift is 40x stronger for t < stiff_until (forces the controller down to dt_min)
+
     def f(self, t, y):
-        return torch.tanh(y @ self.A.T + self.b) + self.c * torch.sin(t)
+        out = torch.tanh(y @ self.A.T + self.b) + self.c * torch.sin(t)
+        if self.stiff_until is not None and float(t) < self.stiff_until:
+            out = out - 40.0 * y
+        return out
 
     def g(self, t, y):
         if self.noise_type == 'diagonal':
@@ -62,11 +67,17 @@ class Minus(nn.Module):
     def g(self, t, y): return -self.base.g(-t, y)
 
 
-def reversibility_defect(noise, d, m, batch, steps, dt, seed):
+def reversibility_defect(noise, d, m, batch, steps, dt, seed, shape='lattice'):
     sde = RandSDE(noise, 'stratonovich', d, m, seed)
     torch.manual_seed(seed)
     y0 = 0.3 * torch.randn(batch, d, dtype=torch.float64)
-    ts = torch.tensor([k * dt for k in range(steps + 1)], dtype=torch.float64)
+    if shape == 'clipped':      # one step, shorter than dt (clipped to ts[-1]); mirrored trivially
+        ts = torch.tensor([0.0, 0.5 * dt], dtype=torch.float64)
+    elif shape == 'offlattice' and steps >= 2:  # interior output times off the dt lattice, total length a multiple of dt
+        inner = sorted({(k + 0.5) * dt for k in range(steps) if (k * 7 + seed) % 3 == 0} | {0.375 * dt})
+        ts = torch.tensor([0.0] + inner + [steps * dt], dtype=torch.float64)
+    else:
+        ts = torch.tensor([k * dt for k in range(steps + 1)], dtype=torch.float64)
     bm = BrownianInterval(t0=ts[0], t1=ts[-1], size=(batch, sde.m), dtype=torch.float64, entropy=seed)
     with torch.no_grad():
         ys, (f, g, z) = torchsde.sdeint(sde, y0, ts, bm=bm, method='reversible_heun', dt=dt, extra=True)
@@ -79,7 +90,8 @@ def reversibility_search(rng, n, tol=1e-9):
     fails, evals, worst = [], 0, 0.0
     for _ in range(n):
         cfg = dict(noise=rng.choice(NOISE), d=rng.choice([1, 2, 3]), m=rng.choice([1, 2, 3]), batch=rng.choice([1, 3]),
-                   steps=rng.choice([1, 2, 5, 8]), dt=rng.choice([0.125, 0.0625, 0.25]), seed=rng.randrange(10 ** 6))
+                   steps=rng.choice([1, 2, 5, 8]), dt=rng.choice([0.125, 0.0625, 0.25]), seed=rng.randrange(10 ** 6),
+                   shape=rng.choice(['lattice', 'lattice', 'clipped', 'offlattice']))
         # dyadic dt: the accumulated float grid `curr_t + dt` is then exact in both directions (see finding F9)
         dfc = reversibility_defect(**cfg)
         evals += 1
@@ -184,6 +196,19 @@ def c12_search(rng, n):
                     cur = b
                 if bad is None and cur != float(tt[-1]):
                     bad = f'grid ends at {cur}, not at ts[-1]'
+                # an output strictly inside a step is the linear interpolant of the two neighbouring grid states
+                if bad is None and log:
+                    grid = [log[0][0]] + [b for a, b in log]
+                    yg = torchsde.sdeint(sde, y0, grid, bm=make_bm(p, ts[0], ts[-1]), method=p['method'], dt=dt) \
+                        if len(grid) > 1 else None
+                    for i, t in enumerate(ts[1:], 1):
+                        t = float(tt[i])
+                        k = next(j for j in range(1, len(grid)) if grid[j] >= t)
+                        w = (t - grid[k - 1]) / (grid[k] - grid[k - 1])
+                        exp = yg[k - 1] + w * (yg[k] - yg[k - 1])
+                        if float((ys[i] - exp).abs().max()) > 1e-10:
+                            bad = f'output at t={t} is not the interpolant of the grid states at {grid[k - 1]}, {grid[k]}'
+                            break
                 # invariance: other output times, same ends
                 extra = sorted(set([ts[0], ts[-1]] + [rng.choice(ts) for _ in range(2)] +
                                    [rng.uniform(ts[0], ts[-1]) for _ in range(rng.randrange(0, 4))]))
@@ -258,20 +283,30 @@ def c14_search(rng, n):
         tol = rng.choice([1e-1, 1e-2, 1e-3, 1e-5])
         ts, kind = random_ts(rng, dt)
         ts = [ts[0], ts[0] + min(ts[-1] - ts[0], 0.6)] if rng.random() < 0.5 else ts
-        stiff = rng.random() < 0.3
+        stiff = rng.random() < 0.5
         if stiff:
-            with torch.no_grad():
-                sde.A.mul_(30.0)
+            if rng.random() < 0.5:
+                with torch.no_grad():
+                    sde.A.mul_(30.0)
+            else:  # stiff phase first, benign afterwards
+                sde.stiff_until = ts[0] + 0.3 * (ts[-1] - ts[0])
         p.update(dt=dt, dt_min=dt_min, tol=tol, ts=ts, stiff=stiff)
-        errs = []
+        errs, props = [], []
         saved = adaptive_stepping.compute_error
+        saved_u = adaptive_stepping.update_step_size
 
         def rec(*a, **k):
             e = saved(*a, **k)
             errs.append(e)
             return e
 
+        def rec_u(*a, **k):
+            r = saved_u(*a, **k)
+            props.append(float(r[0]))
+            return r
+
         adaptive_stepping.compute_error = rec
+        adaptive_stepping.update_step_size = rec_u
         bad = None
         try:
             with torch.no_grad():
@@ -302,6 +337,10 @@ def c14_search(rng, n):
                     if e <= 1 and not accepted:
                         bad = f'trial {k} with error {e} <= 1 was rejected'
                         break
+                    if not last and accepted and e > 1 and k < len(props) and props[k] > dt_min:
+                        bad = (f'trial {k} [{a}, {b}] with error {e} > 1 was accepted although the controller proposed '
+                               f'{props[k]} > dt_min={dt_min}')
+                        break
                     if not accepted:
                         st['rejections'] += 1
                         nxt_len = trials[k + 1][0][1] - trials[k + 1][0][0]
@@ -322,6 +361,7 @@ def c14_search(rng, n):
             bad = f'{type(e).__name__}: {e}'
         finally:
             adaptive_stepping.compute_error = saved
+            adaptive_stepping.update_step_size = saved_u
         st['evals'] += 1
         if bad:
             fails.append(dict(kind='c14', problem=p, why=bad))
